@@ -555,8 +555,9 @@ Record vstate := {
   vs_modules : list (str * module_);
   vs_classes : list (str * cls);
   vs_rmap : list (str * list rmod);
-  vs_functions : list str; vs_results : list str; vs_params : list str; vs_attrs : list str;
-  vs_enums : list str; vs_enum_insts : list str;             (* keys of the flat dictionaries, insertion order *)
+  vs_functions : list (str * func); vs_results : list (str * result); vs_params : list (str * param);
+  vs_attrs : list (str * attr); vs_enums : list (str * enum_); vs_enum_insts : list (str * str);
+                                                               (* the flat dictionaries id -> declaration, insertion order *)
   vs_stack : list frame;                                       (* top first *)
   vs_modfull : str; vs_modname : str }.                        (* mypy_file.fullname / .name *)
 
@@ -565,7 +566,6 @@ Definition W := (list logrec * bool)%type.
 Definition w0 : W := ([], false).
 Definition wapp (a b : W) : W := (fst a ++ fst b, snd a || snd b).
 
-Definition key_add (k : str) (l : list str) : list str := if mem_str k l then l else l ++ [k].
 
 Definition rmap_add (key : str) (m : rmod) (rm : list (str * list rmod)) : list (str * list rmod) :=
   (fix go (rm : list (str * list rmod)) : list (str * list rmod) :=
@@ -946,9 +946,9 @@ Definition leave_func (st : vstate) : res vstate :=
                      | other => other
                      end in
       Ok {| vs_modules := vs_modules st; vs_classes := vs_classes st; vs_rmap := vs_rmap st;
-            vs_functions := key_add (f_id f) (vs_functions st);
-            vs_results := fold_left (fun acc r => key_add (r_id r) acc) (f_results f) (vs_results st);
-            vs_params := fold_left (fun acc p => key_add (p_id p) acc) (f_params f) (vs_params st);
+            vs_functions := dict_set (f_id f) f (vs_functions st);
+            vs_results := fold_left (fun acc r => dict_set (r_id r) r acc) (f_results f) (vs_results st);
+            vs_params := fold_left (fun acc p => dict_set (p_id p) p acc) (f_params f) (vs_params st);
             vs_attrs := vs_attrs st; vs_enums := vs_enums st; vs_enum_insts := vs_enum_insts st;
             vs_stack := parent' :: r'; vs_modfull := vs_modfull st; vs_modname := vs_modname st |}
     end
@@ -968,7 +968,7 @@ Definition leave_enum (st : vstate) : res vstate :=
     | FModule m :: r' =>
       Ok {| vs_modules := vs_modules st; vs_classes := vs_classes st; vs_rmap := vs_rmap st; vs_functions := vs_functions st;
             vs_results := vs_results st; vs_params := vs_params st; vs_attrs := vs_attrs st;
-            vs_enums := key_add (e_id e) (vs_enums st); vs_enum_insts := vs_enum_insts st;
+            vs_enums := dict_set (e_id e) e (vs_enums st); vs_enum_insts := vs_enum_insts st;
             vs_stack := FModule (mod_add_enum m e) :: r'; vs_modfull := vs_modfull st; vs_modname := vs_modname st;
             |}
     | _ => Ok (set_stack st rest)
@@ -1106,11 +1106,11 @@ Definition leave_assign (st : vstate) : res vstate :=
             do cur <- acc;
             let '(stack, attrs, insts) := cur in
             match it, stack with
-            | AIAttr a, FFunc f :: FClass c :: r2 => Ok (FFunc f :: FClass (cls_add_attr c a) :: r2, key_add (a_id a) attrs, insts)
+            | AIAttr a, FFunc f :: FClass c :: r2 => Ok (FFunc f :: FClass (cls_add_attr c a) :: r2, dict_set (a_id a) a attrs, insts)
             | AIAttr a, FFunc f :: _ => Err TypeError
-            | AIAttr a, FClass c :: r2 => Ok (FClass (cls_add_attr c a) :: r2, key_add (a_id a) attrs, insts)
+            | AIAttr a, FClass c :: r2 => Ok (FClass (cls_add_attr c a) :: r2, dict_set (a_id a) a attrs, insts)
             | AIAttr a, _ => Ok cur
-            | AIEnumInst id n, FEnum e :: r2 => Ok (FEnum (enum_add_instance e id n) :: r2, attrs, key_add id insts)
+            | AIEnumInst id n, FEnum e :: r2 => Ok (FEnum (enum_add_instance e id n) :: r2, attrs, dict_set id n insts)
             | AIEnumInst _ _, _ => Ok cur
             end) items (Ok (rest, vs_attrs st, vs_enum_insts st));
         let '(stack, attrs, insts) := out in
@@ -1218,7 +1218,14 @@ Definition select_asts (graph : list gentry) (walkable packages : list str) : re
   let md := filter (fun x => negb (ends_with t_init_file (snd x)) && mem_str (snd x) walkable) gp in
   Ok (map fst (pk ++ md)).
 
-Record outcome := { o_api : api; o_flat : list (list str); o_log : list logrec; o_amb : bool }.
+(* the six flat dictionaries of the API object *)
+Record flat := { fl_functions : list (str * func); fl_results : list (str * result); fl_params : list (str * param);
+                 fl_attrs : list (str * attr); fl_enums : list (str * enum_); fl_enum_insts : list (str * str) }.
+Definition flat_keys (f : flat) : list (list str) :=
+  [map fst (fl_functions f); map fst (fl_results f); map fst (fl_params f); map fst (fl_attrs f); map fst (fl_enums f);
+   map fst (fl_enum_insts f)].
+Record outcome := { o_api : api; o_flatd : flat; o_log : list logrec; o_amb : bool }.
+Definition o_flat (o : outcome) : list (list str) := flat_keys (o_flatd o).
 
 Definition front (v : view) : res outcome :=
   match get_api_files (v_test_run v) (v_glob v) with
@@ -1235,6 +1242,7 @@ Definition front (v : view) : res outcome :=
     let st := fst e in
     Ok {| o_api := {| api_package := v_package v; api_modules := map snd (vs_modules st); api_classes := vs_classes st;
                       api_reexport_map := vs_rmap st |};
-          o_flat := [vs_functions st; vs_results st; vs_params st; vs_attrs st; vs_enums st; vs_enum_insts st];
+          o_flatd := {| fl_functions := vs_functions st; fl_results := vs_results st; fl_params := vs_params st;
+                        fl_attrs := vs_attrs st; fl_enums := vs_enums st; fl_enum_insts := vs_enum_insts st |};
           o_log := fst (snd e); o_amb := snd (snd e) |}
   end.
